@@ -141,7 +141,7 @@ InvL_Log2Lin == s.t = "l2" =>
   /\ Log2LinSafe(s.x)                                                               \* the 3967 cut-off is exactly what keeps the result inside 32 bits
   /\ Log2Lin(s.x) \in 0..Int32Max
   /\ Log2LinSafe(s.x + 1) /\ Log2Lin(s.x + 1) >= Log2Lin(s.x)                       \* non-decreasing
-  /\ (s.x >= 0 /\ s.x < 3967) => Abs(Lin2Log(Log2Lin(s.x)) - s.x) <= 1              \* "very close inverse"
+  /\ (s.x >= SevenQ7 /\ s.x < 3967) => Abs(Lin2Log(Log2Lin(s.x)) - s.x) <= 3        \* "very close inverse" (exhaustive: 3 is attained; below 7.0 the integer result is too coarse)
   /\ (s.x >= 0 /\ s.x % 128 = 0 /\ s.x < 3967) => Log2Lin(s.x) = 2 ^ (s.x \div 128)
 \* the cumulative gain under the hard policy never exceeds MAX_SUM_LOG_GAIN_DB (Q7) by more than the rounding of the two approximations
 SumSlack == 4
